@@ -572,8 +572,8 @@ func c08Spin(d time.Duration) {
 
 var c08StackBuf = make([]byte, 2<<20)
 
-// c08WaitParked waits until the goroutine that published its id in gid is blocked in a channel receive (for the
-// operations started here: waiting for the raft apply future), or has finished.
+// c08WaitParked waits until the goroutine that published its id in gid is parked in a select or channel receive (for the
+// operations started here: waiting for the raft apply future; the enqueue into raft's buffered apply channel never parks), or has finished.
 func c08WaitParked(gid *atomic.Int64, done chan struct{}) bool {
 	return c08Until(func() bool {
 		select {
@@ -599,7 +599,8 @@ func c08WaitParked(gid *atomic.Int64, done chan struct{}) bool {
 		if i < 0 {
 			return false
 		}
-		return bytes.HasPrefix(buf[i+len(needle):], []byte("chan receive"))
+		rest := buf[i+len(needle):]
+		return bytes.HasPrefix(rest, []byte("select")) || bytes.HasPrefix(rest, []byte("chan receive"))
 	})
 }
 
